@@ -506,7 +506,7 @@ RoutedByConfigInForceP == \A k \in 1 .. Len(sent) : sent[k].ok
 StatusShowsConfigInForceP == \A i \in Inst : life[i] = "up" => api[i] \in {inforce[i], "-"}
 
 \* C07: the receivers the API shows for the alerts and the dispatcher's groups agree
-ReceiversAgreeP == \A i \in Inst : (life[i] = "up" /\ rcv[i] # "-" /\ grp[i] # "-") => rcv[i] = grp[i]
+ReceiversAgreeP == \A i \in Inst : (life[i] = "up" /\ rcv[i] # "-" /\ grp[i] \notin {"-", "!"}) => rcv[i] = grp[i]   \* "!": not answered
 
 AtLeastOnce == AtLeastOnceP(P)
 RoutedByConfigInForce == RoutedByConfigInForceP
